@@ -634,6 +634,9 @@ func (ev *SpecEnv) callExpr(x *ast.CallExpr) (Val, types.Type) {
 	case "fdiv":
 		need(2)
 		return Scalar{IFDiv(ev.intTerm(x.Args[0]), ev.intTerm(x.Args[1]))}, nil
+	case "ediv":
+		need(2)
+		return Scalar{IDivE(ev.intTerm(x.Args[0]), ev.intTerm(x.Args[1]))}, nil
 	case "emod":
 		need(2)
 		return Scalar{IModE(ev.intTerm(x.Args[0]), ev.intTerm(x.Args[1]))}, nil
